@@ -252,10 +252,19 @@ theorem exactLaws_zc : ExactLaws ZC ZC ZC.Rep ZC.Rep where
   path := C04.ZC.pathLaws
   timing := C04.ZC.timingLaws
 
+/-- checkers for the kernel-evaluated instances (Props/C02CapstoneToy.lean, Props/C02CapstoneFalse.lean). -/
+instance decSvInverseZC (v : ZC) : Decidable (SvInverse v) := by unfold SvInverse; infer_instance
+
+instance decSortedBy {α : Type} (key : α → Int) (l : List α) : Decidable (C13.SortedBy key l) := by
+  unfold C13.SortedBy; infer_instance
+
 /-! ### the full statement -/
 
 /-- **the property with NO `DecodedDomain` hypothesis** — NOT a theorem; FALSE of the model (and of the code) as soon as any
-one field of `DecodedDomain` is dropped. Per field, the kernel-checked refutation that already exists:
+one field of `DecodedDomain` is dropped. The statement itself is refuted end to end (decode, finish, encode, decode, finish
+in the kernel, on the F16 file) in Props/C02CapstoneFalse.lean: `roundtrip_statement_full_false : ¬ roundtrip_statement_full`,
+`f16_roundtrip_fails`, `f16_other_fields` (that file violates `noDoubleSlash` and nothing else). Per field, the kernel-checked
+refutation that already exists:
 
 * `chronological` — `unordered_not_finalized` (Props/C02FinalUnordered.lean): a spinner at 1000 listed before circles at 100
   and 50; after the sort a plain circle follows the spinner without `new_combo`, the re-decode forces it. The property
